@@ -1351,10 +1351,21 @@ impl World for WorldA {
             total = total.saturating_add(a);
             init_bal.push(json!({"address": addr_of(u), "amount": a.to_string()}));
         }
-        if rng.chance(1, 40) && !init_bal.is_empty() {
-            // duplicate address: must be rejected
-            let d = init_bal[0].clone();
-            init_bal.push(d);
+        if rng.chance(1, 16) && !init_bal.is_empty() {
+            // a repeated address (same amount, zero, or another amount; before or after the original row):
+            // must be rejected, or at least leave supply == sum of balances
+            let k = rng.below(init_bal.len() as u64) as usize;
+            let mut d = init_bal[k].clone();
+            match rng.below(3) {
+                0 => {}
+                1 => d["amount"] = json!("0"),
+                _ => d["amount"] = json!(rng.range(1, 1000).to_string()),
+            }
+            if rng.chance(1, 2) {
+                init_bal.push(d);
+            } else {
+                init_bal.insert(0, d);
+            }
         }
         for i in 0..bulk {
             init_bal.push(json!({"address": addr_of(&format!("bulk{}", i)), "amount": (1 + (i as u128 % 7)).to_string()}));
